@@ -198,10 +198,10 @@ static std::string run_case(const std::string& line) {
         else if (op == "popb") { ret = m.own ? (long)m.iv->pop_back() : NA; }
         else if (op == "clear") { if (m.own) { m.iv->clear(); ret = 0; } else ret = NA; }
         else if (op == "xfo" || op == "xbo") {
-            os >> n >> a2 >> a3;                       // bytes, slack, reserve_front of the destination
+            os >> n >> a2 >> a3;                       // bytes, capacity and reserve_front of the destination
             if (!m.own) ret = NA;
             else {
-                iovector* dst = new_iovector((uint16_t)(a3 + m.iv->iovcnt() + a2), (uint16_t)a3);
+                iovector* dst = new_iovector((uint16_t)a2, (uint16_t)a3);
                 g_arrays_push(dst);
                 ret = (op == "xfo") ? m.iv->extract_front(n, dst) : m.iv->extract_back(n, dst);
                 m.aux = dst->view();
